@@ -12,12 +12,17 @@ def main():
     if r.returncode: print("patch does not apply:", r.stderr); return 2
     res = {}
     try:
-        for p in props:
+        def one(p):
             o = subprocess.run([os.path.join(V, "check"), p, "quick"], capture_output=True, text=True, cwd=V, timeout=1800)
             lines = [l for l in o.stdout.split("\n") if l.startswith(("VIOLATION", "KNOWN-FINDING")) or " quick: " in l]
             v = [l for l in lines if l.startswith("VIOLATION")]
-            res[p] = ("VIOLATION(no-failing-input-found)" if v and v[0].endswith("no-failing-input-found") else "VIOLATION") if v else "ok"
-            print(p, res[p], flush=True)
+            return p, ("VIOLATION(no-failing-input-found)" if v and v[0].endswith("no-failing-input-found") else "VIOLATION") if v else "ok"
+        # the first check alone (it rebuilds the model, the driver and the harnesses for the changed tree), the others four at a time
+        from concurrent.futures import ThreadPoolExecutor
+        p0, r0 = one(props[0]); res[p0] = r0; print(p0, r0, flush=True)
+        with ThreadPoolExecutor(4) as ex:
+            for p, r in ex.map(one, props[1:]):
+                res[p] = r; print(p, r, flush=True)
     finally:
         subprocess.run(["git", "-C", "/repo", "checkout", "--", "."], check=True)
         subprocess.run(["git", "-C", "/repo", "clean", "-fdq", "--", "src"], check=False)
